@@ -39,7 +39,7 @@ def run(pid, tier, seed, replay=None):
             raise vlib.Infra("AuxStore BFS failed: %s\n%s" % (res.violated, res.out[-1500:]))
         ck.add_tlc("AuxStore/MC_AuxStore.cfg", res)
         hist = []
-        nsim = 20 if tier == "quick" else 400
+        nsim = 60 if tier == "quick" else 400
         res = vlib.run_tlc("Gen_AuxStore", "Gen_AuxStore.cfg", tag="auxgen", workers=4, simulate=nsim, depth=41,
                            seed=seed, sink=hist.append, timeout=1500)
         if res.violated or not hist:
@@ -51,7 +51,7 @@ def run(pid, tier, seed, replay=None):
             if key not in seen:
                 seen.add(key)
                 uniq.append(h)
-        hist = uniq[: (80 if tier == "quick" else 1500)]
+        hist = uniq[: (250 if tier == "quick" else 1500)]
         hf = os.path.join(wd, "hist.ndjson")
         vlib.write_ndjson(hf, hist)
         ck.sample({"tlc_history_head": hist[0][:6]})
@@ -68,14 +68,14 @@ def run(pid, tier, seed, replay=None):
         else:
             total += _validate(ck, log1, "TLC histories")
         log2 = os.path.join(wd, "random.ndjson")
-        rc, so, err, _ = vlib.run_driver(exe, ["random", str(60 if tier == "quick" else 1500), "40", str(seed), log2], timeout=1500)
+        rc, so, err, _ = vlib.run_driver(exe, ["random", str(200 if tier == "quick" else 1500), "40", str(seed), log2], timeout=1500)
         if rc != 0:
             ck.violation({"class": "crash", "mode": "random"}, {"what": "aux driver died", "stderr": err[-3000:]})
         else:
             total += _validate(ck, log2, "driver random histories")
             with open(log2) as f:
                 ck.sample({"recorded_calls": [json.loads(next(f)) for _ in range(4)]})
-        ck.cov["traces_validated_against_impl"] = len(hist) + (60 if tier == "quick" else 1500)
+        ck.cov["traces_validated_against_impl"] = len(hist) + (200 if tier == "quick" else 1500)
         ck.cov["evaluations"] = total
         ck.cov["distinct_nontrivial"] = len(hist)
         ck.cov["rule"] = ("operation histories of length 40 over 13 keys (short, 8-char, HIERARCH, reserved, lower-case, empty, blank, '=') and "
